@@ -73,8 +73,46 @@ let h_timeout (f : string list) (impl : string) : string * string list =
     (m, [verdict "C18.spec" (impl = s) ("implementation=" ^ impl ^ " specification=" ^ s)])
   | _ -> failwith "timeout: bad fields"
 
+(* M4: a schedule of the real sender, replayed on the set-valued model of SenderCtl.v *)
+let string_of_sobs (o : ((((n * bool) * (n * bool) list) * n) * bool) * n) : string =
+  let (((((w, t), out), ph), ad), ul) = o in
+  Printf.sprintf "%s,%d,%s,%s,%d,%s" (string_of_n w) (if t then 1 else 0)
+    (String.concat ";" (List.map (fun (c, f) -> string_of_n c ^ ":" ^ (if f then "1" else "0")) out))
+    (string_of_n ph) (if ad then 1 else 0) (string_of_n ul)
+
+let h_atomic (f : string list) (impl : string) : string * string list =
+  match f with
+  | [w0; msg; ups; _cancel; sched] ->
+    let ups = if ups = "" then [] else List.map n_of_string (split ',' ups) in
+    let start = [{ c_sa = sa_init (n_of_string w0) (n_of_string msg); c_ups = ups }] in
+    let observed = if impl = "" then [] else split '|' impl in
+    let acts = List.init (String.length sched) (fun i -> match sched.[i] with '0' -> CSender | '1' -> CUpdater | _ -> CCancel) in
+    let rec go k states acts obs =
+      match acts, obs with
+      | a :: ar, o :: orest ->
+        let next = List.concat_map (fun c -> ctl_step chunk_max c a) states in
+        let keep = List.filter (fun c -> string_of_sobs (sobs c) = o) next in
+        if keep = [] then
+          Printf.sprintf "MISMATCH@%d model={%s}" k (String.concat " / " (List.map (fun c -> string_of_sobs (sobs c)) next))
+        else go (k + 1) keep ar orest
+      | _, _ -> impl in
+    let m = go 0 start acts observed in
+    (* the property itself, on what the real sender was observed to do *)
+    let parse_obs (o : string) =
+      (match split ',' o with
+       | [w; t; out; ph; ad; ul] ->
+         let outl = if out = "" then [] else List.map (fun x -> match split ':' x with
+             | [c; f] -> (n_of_string c, f = "1") | _ -> (N0, false)) (split ';' out) in
+         Some (((((n_of_string w, t = "1"), outl), n_of_string ph), ad = "1"), n_of_string ul)
+       | _ -> None) in
+    let bad = List.filter (fun o -> match parse_obs o with
+        | Some po -> not (conserved_obs (n_of_string w0) ups po) | None -> false) observed in
+    (m, [verdict "C05.conservation" (bad = []) (String.concat " ; " bad)])
+  | _ -> failwith "atomic: bad fields"
+
 let handlers : (string * (string list -> string -> string * string list)) list = [
   "timeout", h_timeout;
+  "atomic", h_atomic;
 ]
 
 (* ================= traces of the simulation harness ================= *)
